@@ -204,6 +204,14 @@ def step (s : State) : Step → State
   | .cleanupSignal => { s with stop := true, late := s.late || s.owner.isSome }
   | .join => { s with joined := true }
 
+/-- the object state after the REST of `cleanup()` (after `join`: stop_signal_ = false, the current and
+the free buffers deleted, free_buffers_ cleared — full_buffers_ is only *asserted* empty, never
+cleared) followed by a new `initialize(cfg')` on the same object: the start of the next lifecycle.
+(`cleanup()` also resets the callback, so `setCallback` must be called again.) -/
+def reinit (s : State) (cfg' : Cfg) (prog' : Nat → List (List UInt8)) : State :=
+  { cfg := cfg', prog := prog', curr := none, full := s.full, free := cfg'.minN, buffNum := cfg'.minN,
+    stop := false, owner := s.owner, bpc := .top, joined := false }
+
 /-- run a step list (= one interleaving); `none` as soon as a step is not enabled -/
 def exec (s : State) : List Step → Option State
   | [] => some s
